@@ -207,7 +207,35 @@ FormatterToText::characters(
         {
             if (chars[i] > m_maxCharacter)
             {
-                //$$$ ToDo: Figure out what we're going to do here...
+                // The character may be one the output encoding cannot
+                // represent.  m_maxCharacter is only a coarse bound (it is
+                // 0x7F for every encoding the transcoding services do not
+                // know), so ask the stream's transcoder about the scalar
+                // value, and report the error instead of letting the
+                // transcoder substitute a replacement character.
+                const XalanOutputStream* const  theStream = m_writer->getStream();
+
+                if (theStream != 0)
+                {
+                    XalanUnicodeChar    theChar = chars[i];
+
+                    if (0xD800u <= theChar && theChar <= 0xDBFFu &&
+                        i + 1 < length &&
+                        0xDC00u <= chars[i + 1] && chars[i + 1] <= 0xDFFFu)
+                    {
+                        theChar = ((theChar - 0xD800u) << 10) + (chars[i + 1] - 0xDC00u) + 0x10000u;
+                    }
+
+                    if (theStream->canTranscodeTo(theChar) == false)
+                    {
+                        XalanDOMString  theBuffer(getMemoryManager());
+
+                        throw XalanTranscodingServices::UnrepresentableCharacterException(
+                                    theChar,
+                                    theStream->getOutputEncoding(),
+                                    theBuffer);
+                    }
+                }
             }
 
 #if defined(XALAN_NEWLINE_IS_CRLF)
